@@ -481,6 +481,7 @@ pub fn aisle_large(r: &mut Rng) -> String {
     let mut s = String::new();
     let ncat = *r.pick(&[3usize, 12, 40, 130, 300]);
     let long = r.chance(1, 3);
+    let filler = *r.pick(&['x', 'x', '\u{e9}', '\u{20ac}', '\u{1f345}']);
     let mut id = 0usize;
     // half of the large files contain exactly one duplicate somewhere
     let dup_at = if r.chance(1, 2) { Some(r.range(1, 400)) } else { None };
@@ -500,8 +501,10 @@ pub fn aisle_large(r: &mut Rng) -> String {
                     s.push_str(&format!("item {id}"));
                 }
                 if long && r.chance(1, 8) {
+                    // multi-byte fillers in a third of the long files: chunk boundaries of a
+                    // buffering writer then fall inside characters
                     for _ in 0..r.range(20, 300) {
-                        s.push('x');
+                        s.push(filler);
                     }
                 }
             }
